@@ -16,6 +16,26 @@ def partitions(b):
         parts.append(b[start:])
         yield parts
 
+def boundary(ctx):
+    """blocks of exactly / around the converters' 8192-byte internal buffers, with a CR carried over from the block before"""
+    for pre in (b"", b"abc\r", b"\r", b"a\r\r", b"\r\n", b"x"):
+        for n in (8191, 8192, 8193, 16384):
+            for fill in (b"x" * n, b"x" * (n - 1) + b"\r", b"\n" + b"x" * (n - 1), b"x" * (n - 2) + b"\r\n", b"\r" * n, b"\r\n" * (n // 2)):
+                yield "dl " + hexlist([p for p in (pre, fill, b"tail\r") if p])
+                yield "dl " + hexlist([p for p in (pre, fill[:n // 2], fill[n // 2:]) if p])
+                yield "ul 8192 %s %s %s" % (hx(pre + fill), natlist([8192] * 8), natlist([8192] * 8))
+                yield "ul 8192 %s %s %s" % (hx(pre + fill), natlist([len(pre) or 1] + [8192] * 8), natlist([8192] * 8))
+    ctx["scopes"].append("both converters on blocks of 8191 / 8192 / 8193 / 16384 bytes (plain, CR at the end, LF at the start, CR LF at the end, all CR, all CR LF) after a block ending in CR")
+
+def gen_asan(ctx):
+    """the same converters under ASan + UBSan: boundary blocks and a sample of the random scenarios"""
+    yield from boundary(ctx)
+    k = 0
+    for l in gen(dict(ctx, scopes=[])):
+        k += 1
+        if k % 7 == 0:
+            yield l
+
 def gen(ctx):
     rng = ctx["rng"]; tier = ctx["tier"]
     LU = 6 if tier == "quick" else 8
@@ -34,6 +54,7 @@ def gen(ctx):
             for parts in partitions(bytes(t)):
                 yield "dl " + hexlist(parts)
     ctx["scopes"].append("download converter: every string over {CR,LF,x} up to length %d x every partition into write calls" % LD)
+    yield from boundary(ctx)
     n = 6000 if tier == "quick" else 150000
     for i in range(n):
         ln = rng.range(0, 60) if rng.chance(98, 100) else rng.choice([8191, 8192, 8193, 4000, 9000])
@@ -54,6 +75,7 @@ def gen(ctx):
 PROP = {
     "id": "C05",
     "stages": [{"name": "pure", "target": "h_pure", "gen": gen},
+               {"name": "pure-asan", "target": "h_pure", "sanitize": True, "gen": gen_asan},
                {"name": "client", "target": "h_client", "gen": gen_c05_client, "shard": 12}],
     "trivial_tags": ["plain", "nocr"],
     "rule": "real ascii_istream (behind a chopping source, read with chosen caller sizes until it returns 0) and ascii_ostream (chosen write "
